@@ -1034,7 +1034,53 @@ def run_rerender(case, col=None):
     return probs
 
 
-RUNNERS = {"rerender": run_rerender, "sign": run_sign, "tamper": run_tamper, "errors": run_errors, "place": run_place,
+def run_truncsign(case, col=None):
+    """Signing a message that is truncated to fit a size limit (record sets dropped by the
+    renderer's rollback): what comes out must still carry the RFC 8945 MAC of the bytes that
+    were actually sent and validate under the same key - also when the key is named after or
+    below the owner of a dropped record set."""
+    probs = []
+    secret = case_secret(case)
+    keyname = dns.name.from_text(case["keyname"])
+    key = dns.tsig.Key(keyname, secret, dns.name.from_text(case["alg"]))
+    q = dns.message.make_query("q.example.", "A", id=MSG_ID)
+    m = dns.message.make_response(q)
+    m.find_rrset(m.answer, dns.name.from_text("q.example."), dns.rdataclass.IN, dns.rdatatype.A, create=True).add(
+        dns.rdata.from_text("IN", "A", "10.0.0.1"), 60)
+    owner = dns.name.from_text(case["dropped_owner"])
+    big = m.find_rrset(m.additional, owner, dns.rdataclass.IN, dns.rdatatype.TXT, create=True)
+    for i in range(case["ntxt"]):
+        big.add(dns.rdata.from_text("IN", "TXT", '"%s"' % (("%02d" % i) * 100)), 60)
+    if case["edns"]:
+        m.use_edns(0, 0, 1232)
+    m.use_tsig(key)
+    CLOCK.now = TIMES[case["time"]]
+    try:
+        wire = m.to_wire(max_size=case["limit"], prefer_truncation=True)
+    except dns.exception.TooBig:
+        if col:
+            col.count("evaluations")
+            col.outcome("truncsign:toobig")
+        return probs
+    try:
+        mac, t = ref.expected_mac(wire, secret, b"")
+        if mac != t.mac:
+            probs.append(("truncsign/mac-differs-from-rfc8945", "limit %d: MAC differs" % case["limit"]))
+    except ref.RefError as e:
+        probs.append(("truncsign/unparseable-or-no-tsig", "limit %d: %s" % (case["limit"], e)))
+    v, label, obj = validate(wire, key, b"", TIMES[case["time"]])
+    if col:
+        col.count("evaluations", 2)
+        col.outcome("truncsign:" + label)
+        col.nontrivial(("truncsign", case["alg"], case["keyname"], case["dropped_owner"], case["limit"], case["edns"]))
+    if v != "ok":
+        probs.append(("truncsign/own-message-rejected/" + label,
+                      "the truncated message (limit %d, key %s, dropped owner %s, edns=%s) does not validate under its key" % (
+                          case["limit"], case["keyname"], case["dropped_owner"], case["edns"])))
+    return probs
+
+
+RUNNERS = {"truncsign": run_truncsign, "rerender": run_rerender, "sign": run_sign, "tamper": run_tamper, "errors": run_errors, "place": run_place,
            "multi": run_multi, "roundtrip": run_roundtrip, "rkey": run_rkey}
 
 
@@ -1190,6 +1236,11 @@ def run(ctx):
 
     # 5b. Renderer signing with a Key object and no explicit algorithm argument
     tasks += chunks([base_case(mode="rkey", alg=alg, keyname=kn) for alg in ALGS for kn in KEYNAMES], 18)
+    tasks += chunks([base_case(mode="truncsign", alg=alg, keyname=kn, dropped_owner=ow, limit=lim, edns=ed, ntxt=3)
+                     for alg in ("hmac-sha256.", "hmac-sha512.") for kn, ow in (("transfer.keys.example.", "keys.example."),
+                                                                               ("keys.example.", "keys.example."),
+                                                                               ("k.", "keys.example."), ("keys.example.", "q.example."))
+                     for lim in (512, 530, 600, 700, 65535) for ed in (False, True)], 16)
     tasks += chunks([base_case(mode="rerender", alg=alg, kind=kind, role=role, mod=mod)
                      for alg in ALGS for kind in KINDS for role in ROLES for mod in ("none", "add-record", "flags", "id")], 24)
 
